@@ -55,14 +55,20 @@ def decorate_answer(answer, request):
     answer.header.end_to_end = request.header.end_to_end
 
     if request.has_avp("session_id_avp"):
-        answer.session_id_avp.data = request.session_id_avp.data
+        if answer.has_avp("session_id_avp"):
+            answer.session_id_avp.data = request.session_id_avp.data
+        else:
+            session_id_avp = SessionIdAVP(request.session_id_avp.data)
+            answer.avps = [session_id_avp] + answer.avps
+
         answer.refresh()
 
     if (is_3xxx_failure(answer) or
         is_4xxx_failure(answer) or
         is_5xxx_failure(answer)):
 
-        answer.header.set_error_bit(True)
+        if not answer.header.is_error():
+            answer.header.set_error_bit(True)
 
     if answer.has_avp("experimental_result_avp"):
         if answer.has_avp("result_code_avp"):
